@@ -102,9 +102,18 @@ pub struct HttpPeer {
     /// if set, stop reading the upload after this many bytes (client's window fills up)
     pub stop_reading_after: Option<usize>,
     pub after_len: usize,
+    /// length of `buf` at the last parse attempt (very large requests are not re-parsed on every segment)
+    last_parse_len: usize,
 }
 
 impl HttpPeer {
+    /// the head is complete and announces a Content-Length that `buf` satisfies
+    fn announced_length_reached(&self) -> bool {
+        let Some(p) = self.buf.windows(4).position(|w| w == b"\r\n\r\n") else { return false };
+        let head = String::from_utf8_lossy(&self.buf[..p]).to_ascii_lowercase();
+        head.lines().filter_map(|l| l.strip_prefix("content-length:")).filter_map(|v| v.trim().parse::<usize>().ok()).any(|n| self.buf.len() >= p + 4 + n)
+    }
+
     pub fn new(router: Router, seen: Arc<Mutex<Seen>>) -> HttpPeer {
         HttpPeer {
             buf: Vec::new(),
@@ -116,6 +125,7 @@ impl HttpPeer {
             when: RespondWhen::RequestComplete,
             stop_reading_after: None,
             after_len: 0,
+            last_parse_len: 0,
         }
     }
 }
@@ -147,6 +157,18 @@ impl Peer for HttpPeer {
                 c.stop_reading();
             }
         }
+        // a request of many megabytes arrives in hundreds of segments: parse it when it may be complete (the
+        // announced length is there, or the last-chunk is at the end of what has arrived) and otherwise only
+        // every time it has doubled
+        if self.buf.len() > (1 << 20)
+            && self.when != RespondWhen::HeadComplete
+            && self.buf.len() < self.last_parse_len.saturating_mul(2)
+            && !self.buf.ends_with(b"0\r\n\r\n")
+            && !self.announced_length_reached()
+        {
+            return;
+        }
+        self.last_parse_len = self.buf.len();
         match parse_request(&self.buf) {
             ReqParse::Incomplete => {
                 if self.when == RespondWhen::HeadComplete {
